@@ -955,11 +955,26 @@ func c10Files(p *Prog, r *Rule) {
 		}
 		aid := st.alloc(types.NewArray(elemT, 2), arr)
 		id := st.alloc(nt, mkStruct(nt, map[string]Val{"Filename": "/srv/in/x.ctl", "Files": SliceV{Obj: aid, Len_: 2, Cap: 2}}))
+		before := deepRender(st, Ptr{Obj: id}, 0)
 		st.push(fn, []Val{Ptr{Obj: id}}, nil)
 		out := m.Run(st)
 		if len(out) != 1 || out[0].Status != stRet {
 			r.undecided(key, p.Pos(fn.Pos()), retDesc(out))
 			continue
+		}
+		firstResult := deepRender(st, st.Ret, 0)
+		if after := deepRender(st, Ptr{Obj: id}, 0); after != before {
+			r.bad(key, p.Pos(fn.Pos()), fmt.Sprintf("AbsFiles modifies the document it is called on: %s became %s", clip(before, 240), clip(after, 240)), nil)
+			continue
+		}
+		st.Status = stRun
+		st.Frames = nil
+		st.push(fn, []Val{Ptr{Obj: id}}, nil)
+		if out2 := m.Run(st); len(out2) == 1 && out2[0].Status == stRet {
+			if second := deepRender(st, st.Ret, 0); second != firstResult {
+				r.bad(key, p.Pos(fn.Pos()), fmt.Sprintf("a second AbsFiles call returns %s, the first returned %s", clip(second, 240), clip(firstResult, 240)), nil)
+				continue
+			}
 		}
 		elems, _, _ := m.sliceElems(st, st.Ret)
 		var got []string
